@@ -328,7 +328,7 @@ func init() {
 		Gen: func(tier string, seed int64) []fw.Case {
 			l := fw.NewCaseList("C12", tier, seed)
 			rng := l.Rng()
-			for i := 0; i < l.N(200, 3000); i++ {
+			for i := 0; i < l.N(200, 15000); i++ {
 				p := c12Params{N: 1 + rng.Intn(12), BaseRows: []int{4, 30, 300}[rng.Intn(3)], Via: "pkg"}
 				p.Refs = rng.Intn(4)
 				if rng.Intn(3) == 0 {
